@@ -222,6 +222,16 @@ def handler(st, opts):
         if not torch.is_tensor(val) or val.numel() != 1:
             return {"problems": [P("kind", "the program did not produce a scalar tensor (%s)" % type(val).__name__)], "stats": stats}
         if not val.requires_grad:
+            # no edge to the tracked cores: legitimate only if the program is constant in them (every dense derivative is exactly
+            # zero, e.g. (x - x) * sum(x - x), where the zero-scalar shortcut of * returns a constant zero tensor)
+            xd0 = [t.detach().clone().requires_grad_(True) for t in c.x]
+            yd0 = [t.detach().clone().requires_grad_(True) for t in c.y]
+            wd0 = [t.detach().clone().requires_grad_(True) for t in c.w] if c.w is not None else None
+            v0 = eval_dense(c, xd0, yd0, body, head, red, wd0)
+            dl0 = {"x": xd0, "x0": [xd0[0]], "xl": [xd0[-1]], "xr": [xd0[-1], xd0[0]], "y": yd0, "xy": xd0 + yd0, "wx": (wd0 or []) + xd0}[track]
+            r0 = torch.autograd.grad(v0, dl0, allow_unused=True) if v0.requires_grad else [None] * len(dl0)
+            if all(g is None or not bool(g.abs().max() > 0) for g in r0) and abs(val.item() - v0.item()) <= 1e-9 * max(1.0, abs(v0.item())):
+                return {"problems": [], "stats": {"behaviours": 1, "calls": 1, "constant_program": 1}}
             problems.append(P("graph-cut", "the value does not depend on the tracked cores in the autograd graph"))
             return {"problems": problems, "stats": stats}
         if track == "x": got = tt.grad.grad(val, X)
